@@ -1105,6 +1105,36 @@ theorem sheetLoop_truncated_style (O : Oracle) (M : List Cps) (st : SheetSt) (t 
   · simp [ho, sheetInsert, Rule.kind]
   · simp [ho]
 
+/-! ## known finding C04-escaped-delimiter-ident: value-based versus CSS-level classification -/
+
+/-- what CSS means: only CHAR tokens are brackets; a FUNCTION token opens a parenthesis -/
+def Tok.cssBr (t : Tok) : Br :=
+  if t.typ = .function then .op .paren
+  else if t.typ = .char then
+    (if t.val = vLBrace then .op .brace else if t.val = vRBrace then .cl .brace
+     else if t.val = vLBrack then .op .bracket else if t.val = vRBrack then .cl .bracket
+     else if t.val = vLParen then .op .paren else if t.val = vRParen then .cl .paren else .no)
+  else .no
+
+/-- the guard of the finding: a token that is not a CHAR does not have a bracket as its (unescaped) value -/
+def plainTok (t : Tok) : Bool :=
+  t.typ == .char ||
+    !(t.val == vLBrace || t.val == vRBrace || t.val == vLBrack || t.val == vRBrack || t.val == vLParen
+      || t.val == vRParen)
+
+theorem br_eq_cssBr (t : Tok) (h : plainTok t = true) : t.br = t.cssBr := by
+  unfold Tok.br Tok.cssBr
+  by_cases hc : t.typ = .char
+  · simp [hc]
+  · have h' : (t.val == vLBrace || t.val == vRBrace || t.val == vLBrack || t.val == vRBrack
+        || t.val == vLParen || t.val == vRParen) = false := by
+      unfold plainTok at h
+      have : (t.typ == TT.char) = false := by simpa using hc
+      simpa [this] using h
+    simp only [Bool.or_eq_false_iff, beq_eq_false_iff_ne, ne_eq] at h'
+    obtain ⟨⟨⟨⟨⟨h1, h2⟩, h3⟩, h4⟩, h5⟩, h6⟩ := h'
+    by_cases hf : t.typ = .function <;> simp [h1, h2, h3, h4, h5, h6, hf, hc]
+
 /-! ## example tokens (for the non-vacuity examples of the property file) -/
 namespace Ex
 def ch (c : Nat) (p : Nat := 0) : Tok := ⟨.char, [c], p⟩
